@@ -48,9 +48,10 @@ structure Chunk where
   id : Bytes
   szField : Nat
   body : Bytes
+  padB : Bytes   -- what follows the body up to the next chunk: the pad byte after an odd-sized body
 
-/-- id, size field, body, pad byte after an odd-sized body -/
-def Chunk.enc (c : Chunk) : Bytes := c.id ++ (le 4 c.szField ++ (c.body ++ pad c.body.length))
+/-- id, size field, body, pad -/
+def Chunk.enc (c : Chunk) : Bytes := c.id ++ (le 4 c.szField ++ (c.body ++ c.padB))
 
 def encAll (cs : List Chunk) : Bytes := (cs.map Chunk.enc).flatten
 
@@ -61,21 +62,22 @@ def effSize (ds : Option Ds64) (c : Chunk) : Nat :=
   | some d => if c.id = idData then d.dataSize else (d.lookup c.id).getD c.szField
 
 /-- well-formed chunk: four-character id accepted by `CHUNK_ID_RE`, size field fits 32 bits and (after
-ds64 substitution) equals the body length -/
+ds64 substitution) equals the body length, one pad byte exactly after an odd-sized body -/
 structure Chunk.OK (ds : Option Ds64) (c : Chunk) : Prop where
   idLen : c.id.length = 4
   idValid : validId c.id = true
   szLt : c.szField < 2 ^ 32
   size : effSize ds c = c.body.length
+  padLen : c.padB.length = c.body.length % 2
 
 /-- the reader's chunk table after walking `cs` laid out from offset `p`, starting from table `t` -/
 def walkTable : Nat → List Chunk → Table → Table
   | _, [], t => t
   | p, c :: cs, t => walkTable (p + c.enc.length) cs ((c.id, c.body.length, p) :: t)
 
-theorem Chunk.enc_length (c : Chunk) (h : c.id.length = 4) :
+theorem Chunk.enc_length (c : Chunk) (h : c.id.length = 4) (hp : c.padB.length = c.body.length % 2) :
     c.enc.length = 8 + (c.body.length + c.body.length % 2) := by
-  simp [Chunk.enc, le_length, pad_length, h]; omega
+  simp [Chunk.enc, le_length, hp, h]; omega
 
 theorem readChunkHeader_eof {f : Bytes} {ds : Option Ds64} {pos : Nat} (h : f.length < pos + 8) :
     readChunkHeader f ds pos = .eof := by
@@ -102,7 +104,7 @@ theorem walk_chunks (ds : Option Ds64) (cs : List Chunk) (hok : ∀ c ∈ cs, c.
     have hc := hok c (by simp)
     have hh : readChunkHeader f ds pre.length = .hdr c.id c.body.length := by
       have hd : readAt f pre.length 8 = c.id ++ le 4 c.szField := by
-        apply readAt_mid (r := c.body ++ pad c.body.length ++ encAll cs) _ rfl
+        apply readAt_mid (r := c.body ++ c.padB ++ encAll cs) _ rfl
         · simp [le_length, hc.idLen]
         · simp [hf, encAll, Chunk.enc]
       have h4 : (c.id ++ le 4 c.szField).take 4 = c.id := by
@@ -116,7 +118,7 @@ theorem walk_chunks (ds : Option Ds64) (cs : List Chunk) (hok : ∀ c ∈ cs, c.
       | none => simpa [effSize] using hsz
       | some d => simpa [effSize] using hsz
     rw [readChunks, hh]
-    have hlen := c.enc_length hc.idLen
+    have hlen := c.enc_length hc.idLen hc.padLen
     have hfl : f.length = pre.length + c.enc.length + (encAll cs).length := by
       simp [hf, encAll]; omega
     have hle : ¬ (pre.length + 8 + (c.body.length + c.body.length % 2) > f.length) := by omega
@@ -141,7 +143,7 @@ theorem walk_chunks_then (ds : Option Ds64) (cs : List Chunk) (hok : ∀ c ∈ c
     have hc := hok c (by simp)
     have hh : readChunkHeader f ds pre.length = .hdr c.id c.body.length := by
       have hd : readAt f pre.length 8 = c.id ++ le 4 c.szField := by
-        apply readAt_mid (r := c.body ++ pad c.body.length ++ (encAll cs ++ tail)) _ rfl
+        apply readAt_mid (r := c.body ++ c.padB ++ (encAll cs ++ tail)) _ rfl
         · simp [le_length, hc.idLen]
         · simp [hf, encAll, Chunk.enc]
       have h4 : (c.id ++ le 4 c.szField).take 4 = c.id := by
@@ -156,7 +158,7 @@ theorem walk_chunks_then (ds : Option Ds64) (cs : List Chunk) (hok : ∀ c ∈ c
       | some d => simpa [effSize] using hsz
     have hfu : (c :: cs).length + fuel = (cs.length + fuel) + 1 := by simp; omega
     rw [hfu, readChunks, hh]
-    have hlen := c.enc_length hc.idLen
+    have hlen := c.enc_length hc.idLen hc.padLen
     have hfl : f.length = pre.length + c.enc.length + (encAll cs).length + tail.length := by
       simp [hf, encAll]; omega
     have hle : ¬ (pre.length + 8 + (c.body.length + c.body.length % 2) > f.length) := by omega
@@ -204,11 +206,12 @@ theorem tlookup_walkTable_found (c : Chunk) (B : List Chunk) (hB : ∀ x ∈ B, 
 
 /-- a chunk whose id does not occur later in the file is returned with exactly its body -/
 theorem chunkData_found {f pre : Bytes} {A B : List Chunk} {c : Chunk}
-    (hf : f = pre ++ encAll (A ++ c :: B)) (hid : c.id.length = 4) (hB : ∀ x ∈ B, x.id ≠ c.id) (t : Table) :
+    {tail : Bytes} (hf : f = pre ++ (encAll (A ++ c :: B) ++ tail)) (hid : c.id.length = 4)
+    (hB : ∀ x ∈ B, x.id ≠ c.id) (t : Table) :
     chunkData f (walkTable pre.length (A ++ c :: B) t) c.id = some c.body := by
   simp only [chunkData, tlookup_walkTable_found c B hB, Option.map]
   congr 1
-  apply readAt_mid (a := pre ++ encAll A ++ c.id ++ le 4 c.szField) (r := pad c.body.length ++ encAll B) _ _ rfl
+  apply readAt_mid (a := pre ++ encAll A ++ c.id ++ le 4 c.szField) (r := c.padB ++ (encAll B ++ tail)) _ _ rfl
   · simp [hf, Chunk.enc]
   · simp [le_length, hid]; omega
 
